@@ -167,6 +167,7 @@ class GibbsRefiner:
         self.ncalls = 0
         self.maxdev = 0.0
         self.saturated = 0
+        self.ambiguous = False
 
     def _cond_h(self):
         if self.use_table:
@@ -223,6 +224,10 @@ class GibbsRefiner:
                     self.msg = f"step {self.step}: draw of width {dim} matches no latent layer"
                 return
             dev, lay = min(cands)
+            if len([c for c in cands if c[0] <= self.tol]) > 1:
+                # both latent layers have the same width AND the same conditional for every chain
+                # (e.g. zero biases and an all-zero visible row): which draw is which cannot be told yet
+                self.ambiguous = True
             self.maxdev = max(self.maxdev, dev)
             if dev > self.tol:
                 self.status = "mismatch"
@@ -245,6 +250,16 @@ class GibbsRefiner:
             return
         ref = self._cond_v()
         dev = float(np.max(np.abs(ref - p2)))
+        if dev > self.tol and self.ambiguous and self.m.na and self.h.shape == self.a.shape:
+            # resolve the ambiguity the other way round
+            self.h, self.a = self.a, self.h
+            ref2 = self._cond_v()
+            dev2 = float(np.max(np.abs(ref2 - p2)))
+            if dev2 <= self.tol:
+                dev = dev2
+            else:
+                self.h, self.a = self.a, self.h
+        self.ambiguous = False
         self.maxdev = max(self.maxdev, dev)
         if dev > self.tol:
             self.status = "mismatch"
